@@ -144,6 +144,8 @@ def check_accessors(ro, add, order=None):
     if ok_d and all_dur and exp_stories:
         if ro_dur != sum(durs):
             add('C16.timing', 'ro.duration %r, sum of story durations %r' % (ro_dur, sum(durs)))
+        if ro_dur is None:
+            add('C15.accessor', 'ro.duration is None although every story carries a duration')
     if ok_sc:
         want = [x for s in exp_stories for x in exp_script(s)]
         if ro_script != want:
@@ -172,6 +174,8 @@ def check_accessors(ro, add, order=None):
             o, dur = get(lab + '.duration', lambda: st.duration)
             if o and dur != durs[i]:
                 add('C16.timing', '%s.duration %r, XML says %r' % (lab, dur, durs[i]))
+                if (dur is None) != (durs[i] is None):
+                    add('C15.accessor', '%s.duration %r, the XML %s a duration' % (lab, dur, 'carries' if durs[i] is not None else 'carries no'))
             o, off = get(lab + '.offset', lambda: st.offset)
             if o and all_dur and unique and off != t:
                 add('C16.timing', '%s.offset %r, expected %r' % (lab, off, t))
@@ -262,6 +266,14 @@ def check_roundtrip(ro, add, orig_mid, orig_roid, expect_completed):
             add('C14.roundtrip', 'read-back content differs')
         if ro2.completed != ro.completed:
             add('C14.roundtrip', 'completed flag %r reads back as %r' % (ro.completed, ro2.completed))
+        # same stories and items through the accessors of the live object and of the read-back one
+        try:
+            live = [(st.id, [it.id for it in (st.items or [])]) for st in ro.stories]
+            back = [(st.id, [it.id for it in (st.items or [])]) for st in ro2.stories]
+            if live != back:
+                add('C14.roundtrip', 'the live running order lists %r, its serialisation reads back as %r' % (live[:6], back[:6]))
+        except Exception:    # noqa - accessor failures are C15's
+            pass
         m = MosFile.from_string(s)
         if type(m) is not RunningOrder:
             add('C07.roundtrip' if expect_completed else 'C14.roundtrip',
